@@ -13,7 +13,7 @@ from .api import Ty, Contract
 from .interp import Interp, PyRaise, Closure, BoundMethod
 from .loops import _call_pred, _param_names
 from .path import PathState, PathAbort, RetryPath, Unsupported
-from .values import SBool, Sym, SOpt, SChoice, to_z3, wrap
+from .values import SBool, SInt, Sym, SOpt, SChoice, to_z3, wrap
 
 MAX_PATHS = 4000
 
@@ -78,6 +78,24 @@ def apply_contract(interp, c, func, args, kwargs):
             ghosts[g] = ty.make(interp, 'ghost.%s' % g)
     env = _clause_env(bound, ghosts, {'trace': st.trace, 'ghost': st.ghost})
     caller = interp.current_function_name()
+    # the shape of a parameter is part of the precondition: integer ranges are proved at the call site
+    from .api import _Int
+    for pname, ty in c.params.items():
+        if isinstance(ty, _Int) and (ty.lo is not None or ty.hi is not None) and pname in bound:
+            v = bound[pname]
+            if isinstance(v, (SOpt, SChoice)):
+                v = interp.resolve(v)
+            if isinstance(v, bool) or not isinstance(v, (int, SInt)):
+                continue
+            conds = []
+            if ty.lo is not None:
+                conds.append(to_z3(v) >= ty.lo)
+            if ty.hi is not None:
+                conds.append(to_z3(v) <= ty.hi)
+            ok = wrap(z3.And(*conds))
+            st.oblige('%s : requires[range of %s] of %s' % (caller, pname, c.qname), ok,
+                      {'kind': 'callee-pre', 'callee': c.qname})
+            st.assume(ok)
     if c.requires is not None:
         ok = interp.truth(_call_pred(interp, c.requires, env))
         st.oblige('%s : requires of %s' % (caller, c.qname), ok, {'kind': 'callee-pre', 'callee': c.qname})
